@@ -40,7 +40,7 @@ var checks = map[string]checkDef{
 	"C13": {pkg: "verif/mc/checks/c13", shapes: []string{"mini", "flat3", "flat24"}, modfile: "go.sched.mod"},
 	"C14": {pkg: "verif/mc/checks/c14"},
 	"C15": {pkg: "verif/mc/checks/c15"},
-	"C16": {pkg: "verif/mc/checks/c16", shapes: []string{"mini", "person", "document", "flat3", "samedeep"}},
+	"C16": {pkg: "verif/mc/checks/c16", shapes: []string{"mini", "person", "document", "flat3", "samedeep", "flat24"}},
 	"C17": {pkg: "verif/mc/checks/c17"},
 	"C18": {pkg: "verif/mc/checks/c18", shapes: []string{"mini", "person", "document", "flat3"}},
 }
